@@ -557,6 +557,50 @@ func checkWriteMethod(c *Checker, rg *Ranger, fn *ssa.Function) {
 		}
 		if acc, ok := accumulatesFlush(ret.Results[0]); ok {
 			c.ok("RDC-3", fmt.Sprintf("%s|count|%s", name, w.canonFB(unwrapLoadAlloc(ret.Results[0]))), instrPos(ret), "accumulated Flush counts: "+acc)
+			// a successful return of the accumulated count says "all of b was written": it is only
+			// reached when the count is no longer below len(b) (the chunk loop runs until everything is
+			// handed over - a loop with a precomputed number of rounds can stop short of the end)
+			if len(ret.Results) == 2 && isNilConst(ret.Results[1]) {
+				cnt := ret.Results[0]
+				var buf ssa.Value
+				if len(fn.Params) >= 2 {
+					buf = fn.Params[1]
+				}
+				whole := hasFact(ret.Block(), func(f Fact) bool {
+					bo, ok := f.Cond.(*ssa.BinOp)
+					if !ok {
+						return false
+					}
+					isLen := func(v ssa.Value) bool {
+						for _, x := range expandValues(v) {
+							call, ok := x.(*ssa.Call)
+							if !ok {
+								return false
+							}
+							b, ok := call.Call.Value.(*ssa.Builtin)
+							if !ok || b.Name() != "len" || unwrapLoadAlloc(call.Call.Args[0]) != buf {
+								return false
+							}
+						}
+						return true
+					}
+					same := func(v ssa.Value) bool { return v == cnt || unwrapLoadAlloc(v) == unwrapLoadAlloc(cnt) }
+					// !(cnt < len(b))  or  cnt >= len(b)  or  cnt == len(b)
+					switch {
+					case bo.Op == token.LSS && !f.Val && same(bo.X) && isLen(bo.Y):
+						return true
+					case bo.Op == token.GEQ && f.Val && same(bo.X) && isLen(bo.Y):
+						return true
+					case bo.Op == token.LEQ && f.Val && isLen(bo.X) && same(bo.Y):
+						return true
+					case bo.Op == token.EQL && f.Val && (same(bo.X) && isLen(bo.Y) || same(bo.Y) && isLen(bo.X)):
+						return true
+					}
+					return false
+				})
+				c.decide(whole, "RDC-3", name+"|success only when the whole buffer was handed over", instrPos(ret), "the successful return is reached only under count >= len(b)",
+					"a chunking Write can report success with a count below len(b): the tail of the buffer is never written and the caller is not told")
+			}
 			return
 		}
 		for _, v := range expandValues(ret.Results[0]) {
